@@ -19,6 +19,7 @@ import OFV.Proofs.C18Valid
 import OFV.Proofs.C18Explicit
 import OFV.Proofs.C18Helpers
 import OFV.Proofs.C18Once
+import OFV.Proofs.C18TpbPerm
 
 namespace OFV.C18
 open OFV.Model.C18 OFV.Spec.C18 OFV.Proofs.C18
@@ -315,6 +316,17 @@ theorem gen_pairings_between_spec (A B : List L) (hAB : (A ++ B).Nodup) (hAn : n
   · intro x y hx hy p q r d hp hq hpq hr hd hAx
     obtain ⟨g, hg, h1, h2⟩ := OFV.Proofs.C18Pws.gpb_cover_right A B hAB hAn hBn x y hx hy p q r d hp hq hpq hr hd hAx
     exact ⟨g, hg, conv g p q h1, conv g r d h2⟩
+
+/-- `group_into_tensor_product_basis_sets` for **genuine permutations**: whenever every recorded shuffle is a
+permutation of the indices of the bases present at that step — which is what `numpy.random.RandomState.shuffle` produces
+for every seed — the returned dictionary is a partition of the operator's non-zero terms into tensor-product-basis
+groups (`tpbOk`).  This discharges the hypothesis `PermsCover` of `tpb_groups_spec` from the natural one. -/
+theorem tpb_groups_spec_permutations (tol : Rat) (op : Model.Op) (perms : List (List Nat))
+    (hnd : (op.map (·.1)).Nodup) (hb : ∀ tc ∈ op, isBasis tc.1 = true)
+    (hc : ∀ tc ∈ op, tc.2 ≠ 0 → GQ.isSmall tol tc.2 = false)
+    (hp : OFV.Proofs.C18Tpb.GenuinePerms tol [] op perms) :
+    tpbOk op (groupTPB tol op perms) = true :=
+  tpb_groups_spec tol op perms hnd hb hc (OFV.Proofs.C18Tpb.permsCover_of_genuine tol op [] perms hp)
 
 /-! ### explicit `num_iterations` -/
 
